@@ -681,7 +681,8 @@ def oracle_findings(label, base, other):
 
 
 def still_fails(desc, label, order, signature):
-    base, other = dump_all([(base_of(desc), "sorted"), (desc, order)])
+    need_ids = signature.startswith(("id-depends", "package-tree"))
+    base, other = dump_all([(base_of(desc), "sorted"), (desc, order)], ids=need_ids)
     if "crash" in base or "crash" in other:
         return None
     for sig, what, extra in oracle_findings(label, base, other):
@@ -702,7 +703,7 @@ def bodies_of(desc):
                     stack.append(sub)
 
 
-def shrink(desc, label, order, signature, budget=90, seconds=300):
+def shrink(desc, label, order, signature, budget=60, seconds=150):
     """greedy, big steps first: all other recipes, one key name everywhere, classes, single keys"""
     import time
     t0 = time.time()
@@ -798,7 +799,7 @@ def oracle(ctx, desc, label, order, base, other):
         ctx.count("classes:ids-compared", len(ids_of(base)))
     for sig, what, extra in fs:
         rep = dict(extra, family="classes", desc=desc, config=label, order=order)
-        if sig not in reported and not ctx.replay:
+        if not reported and not ctx.replay:        # the first finding of a run is minimised (time)
             reported.add(sig)
             small, last, tries = shrink(desc, label, order, sig)
             if last is not None:
